@@ -298,6 +298,23 @@ impl Check for PathProp {
             "C05" if index % 5 == 4 => {
                 with_histories(&mut scn, &mut rng, o.max_iters.min(120), &["open", "balls", "shell_door"], false);
             }
+            "C03" if index % 6 == 4 => {
+                // RRT* in clutter: many choose-parent and rewiring decisions per run with some
+                // candidates blocked, and a goal that is reached, so that rewired and re-parented
+                // edges end up on returned paths
+                let mut rng2 = Xo::new(mix(seed, "C03-clutter", index));
+                let o2 = GenOpts { planner: Some(PlannerKind::RRTStar), families: vec!["slivers", "slivers", "balls", "thin_wall"], space_kinds: vec!["RV", "RV", "SE2", "Compound", "SO2", "SE3"], max_iters: if tier == Tier::Thorough { 500 } else { 300 }, min_frac: 0.01, query_budget: 1.5e6, ..Default::default() };
+                scn = gen::base(&mut rng2, self.id, seed, index, &o2);
+                let ext = scn.param("ext").unwrap_or(1.0);
+                scn.planner.max_distance = ext * rng2.range(0.04, 0.15);
+                scn.planner.search_radius = scn.planner.max_distance * rng2.range(1.5, 5.0);
+                scn.planner.goal_bias = 0.05;
+                scn.problems[0].goal.radius = scn.problems[0].goal.radius.max(ext * rng2.range(0.05, 0.15));
+                let l = crate::spaces::geo_for(&scn.space).unwrap().lvs();
+                let n = gen::affordable_iters_b(&scn.planner, l, ext, 100 + rng2.below(o2.max_iters), 1.5e6);
+                scn.calls = vec![CallSpec::Setup { problem: 0 }, solve_budget(n)];
+                scn.family = format!("rrtstar_clutter/{}", scn.family);
+            }
             "C03" => {
                 // long edges: RRT* radii >> step, PRM radii spanning walls
                 if rng.chance(0.5) {
